@@ -8,13 +8,72 @@ BASE_NOTE = ("Trusted base: go/types, go/ssa, CHA/VTA call graphs of golang.org/
              "conditions of the property for all inputs/histories at once; it does not decide the behavioural statement whole.")
 
 # id -> (technique, level text, design_ref)
+def lv(decided, notdec):
+    return ("Static analysis, level 'other': structural necessary conditions of the property are decided from /repo's current "
+            "source for every input, history and fault sequence at once (which the example-based suite cannot do): " + decided +
+            " NOT decided by this check: " + notdec)
+
 CLAIMS = {
+ "C01": ("key-shape agreement tables + SSA dataflow provenance + guard dominance (gate deletion on the instruction CFG)",
+   lv("reader/writer key agreement over every accessor call site (K1, K2, X-visit-extract); each executor calls the node's own function once with BuildList's result in its own view (M-args, M-once); zero values only for optional parameters without provider (G-optzero); home/view scopes (HOME-VIEW); provider and decorator executions triggered only by the parameter's own key (T-provenance); delivered values read from scope stores (T-same-instance).",
+      "that the delivered values are right for every history (cache staleness across scopes, nearest-decorator selection at run time)."), "DESIGN.md 4/C01"),
+ "C02": ("typestate analysis of done-flags + path-sensitive guard check (phi/branch-fact explorer) + call-graph re-entrancy",
+   lv("done-flag typestate of constructorNode.called and decoratorNode.state incl. re-entrancy through BuildList (E-TS), decorator.Call guarded by State()!=OnStack on the same decorator, path-sensitively (G-onstack), same-instance delivery (T-same-instance).",
+      "pointer identity as observed by arbitrary consumers."), "DESIGN.md 4/C02"),
  "C03": ("call-graph must-not-reach (CHA, sound) + sealed-interface check + SSA guard dominance",
-         "Static analysis, level 'other': decides for every history that no public entry point except Invoke can reach user code (whole-program CHA call graph, sound for interface and func-value calls), that option interfaces are sealed, and the structural ordering/guard clauses listed in DESIGN.md 4/C03. The liveness clause (everything in the closure has run) is not decided.",
-         "DESIGN.md section 4, C03"),
+   lv("no public entry point except Invoke can reach user code in the whole-program CHA call graph (W-reach, decided completely modulo the trusted base), option interfaces sealed (X-sealed), executions triggered only by the parameter's own key (T-provenance), soft groups call no provider (G-soft), consumer runs only after its arguments were built (M-args).",
+      "that every not-yet-built constructor of the closure has run when Invoke succeeds (liveness)."), "DESIGN.md 4/C03"),
+ "C04": ("guard dominance / must-pass-through on SSA + construction-site ownership",
+   lv("M-args for all executors, M-shallow + W-missingdeps, T-rootcause (a failing constructor is always errConstructorFailed carrying its own error), G-optzero, the missing-predicate and its recursion (G-missing).",
+      "the verdict as a function of depth and of optional edges above the gap; the 'everything available implies success' direction."), "DESIGN.md 4/C04"),
+ "C05": ("typestate (verified-view) + flag soundness + sibling agreement over node kinds + guard dominance",
+   lv("build only in a verified view (M-acyclic-view), soundness of isVerifiedAcyclic (G-flag), every scope of the subtree checked and failures reported as cycle errors (M-acyclic-provide, W-cycleerr), orders invariant for every node kind (X-orders), DFS marks before exploring (G-dfs), dispatchers cover all parameter kinds (X-switch, K2), decorator re-entry guarded (G-onstack).",
+      "correctness of the reported path; exhaustiveness over digraphs (an enumeration, a different technique family); stack-depth bounds."), "DESIGN.md 4/C05"),
+ "C06": ("atomicity analysis (persistent-write summaries over the call tree, compensation structures) + ownership",
+   lv("E-ATOM on the whole call trees of Provide and Decorate for all error exits, W-owners, G-decorate-dup, W-reach.",
+      "equality of all later behaviour with the history without the rejected call (a relation between runs)."), "DESIGN.md 4/C06"),
+ "C07": ("atomicity of executions (staging, errors-first extraction, transient marker) + typestate",
+   lv("E-stage, E-TS(c), HOME-VIEW commit after success, T-rootcause, G-recover.",
+      "that the retry happens in every continuation (needs resolution to reach the function again, a run-time fact)."), "DESIGN.md 4/C07"),
+ "C08": ("who-may-read over the module call graph + guard dominance + sibling agreement",
+   lv("resolution never reads childScopes, navigation only through parentScope nearest-first, Export re-targeting, propagation over the subtree (W-scopes), HOME-VIEW, X-orders, X-inherit, K2.",
+      "'nearest wins' as an outcome beyond the first-hit loop structure; value caching across scopes."), "DESIGN.md 4/C08"),
+ "C09": ("key-shape agreement (reader/writer tables) + guard dominance",
+   lv("K1, K2, K3 (group names non-empty), G-dupkey incl. name/group exclusion at all entry points, X-visit-extract.",
+      "the As-replaces-concrete-type convention as an outcome; pointer sharing among As keys."), "DESIGN.md 4/C09"),
+ "C10": ("loop-exit analysis + key agreement + ownership + typestate",
+   lv("K2 for group accessors, L-no-early-exit for both loops over the enclosing scopes, once-only feeders (E-TS, E-stage, HOME-VIEW), single writers and copy-out (W-owners), members only from getValueGroup of the parameter's key (T-same-instance, T-provenance).",
+      "the multiset itself; that the shuffle is a permutation."), "DESIGN.md 4/C10"),
+ "C11": ("call-graph-assisted guard dominance",
+   lv("G-soft (every constructor-executing call in paramGroupedSlice.Build under !Soft; Soft only from the \"soft\" option), X-group-parse.",
+      "the 'contains all members of earlier executions and of sibling fields' clause (run-time ordering effect of the field reordering)."), "DESIGN.md 4/C11"),
+ "C12": ("must-pass-through ordering + atomicity + typestate + key agreement",
+   lv("M-dec-first for both Build functions, G-decorate-dup + E-ATOM(Decorate), decorator view and marker (M-args, E-TS, G-onstack, E-stage), K2, W-scopes.",
+      "nearest-decorator selection as an outcome for every history."), "DESIGN.md 4/C12"),
+ "C13": ("taint/provenance dataflow (path-sensitive on phi values) + type-level checks + guard dominance",
+   lv("T-usererr, X-unwrap + closed error family, T-foreign-cause, T-rootcause, G-recover + PanicError shape, W-cycleerr/X-iscycle.",
+      "chain shapes at depth (follow from X-unwrap by induction)."), "DESIGN.md 4/C13"),
+ "C14": ("precondition discipline for partial reflect operations (contracts, field invariants, path-sensitive kind facts) + entry validation",
+   lv("P1 entry validation, E-REFL over every partial reflect call site with contracts re-checked at call sites and field invariants at construction sites, K3, K2/X-visit-extract for the discarded-ok lookups, E-ATOM for 'rejected input changes nothing'.",
+      "panics from indexing, nil maps, reflect.Value.Set assignability, user String() methods; nil option values; a handful of sites is listed as assumed with reasons in the evidence."), "DESIGN.md 4/C14"),
+ "C15": ("sibling agreement / exhaustiveness over computed value sets + guard dominance",
+   lv("X-switch (value sets of param/result, every dispatcher exhaustive or reasoned, same child slices iterated), X-encodings (variadic drop, error results, option == tag, X-group-parse).",
+      "the equivalence of the two encodings itself (a relation between two programs' behaviours)."), "DESIGN.md 4/C15"),
+ "C16": ("who-may-read over the module call graph + sibling agreement + flag soundness",
+   lv("X-orders, W-orderfree (deferral flag controls only the IsAcyclic block; registration never reads decorators / Decorate never reads providers), G-flag.",
+      "equality of wiring under permutation of registrations (relational)."), "DESIGN.md 4/C16"),
  "C17": ("ownership (who-may-call / who-may-write) over SSA + call graph",
-         "Static analysis, level 'other': decides that user code is entered only through an invokerFn read from the scope, that the only reflective call sits in defaultInvoker, and that invokerFn has exactly the three legitimate writers and no mode-branch readers, so a DryRun container cannot execute user functions in any scope and shares all validation code. Equality of verdicts between a dry and a normal run is a relation between executions and is not decided.",
-         "DESIGN.md section 4, C17"),
+   lv("W-sink (single reflective call site, invoker read from the scope, three writers, no mode branch, dryInvoker reaches no sink), X-inherit.",
+      "equality of verdicts between a dry and a normal run (a relation between executions)."), "DESIGN.md 4/C17"),
+ "C18": ("sibling agreement of parallel literals + atomicity + dataflow provenance",
+   lv("X-info (attribute-wise copies at matching indices, sizes, sources, ID provenance, leaf cardinalities), E-ATOM (Info untouched on rejection), X-switch and X-encodings for flattening and omissions.",
+      "uniqueness of code pointers for closures (a Go runtime fact)."), "DESIGN.md 4/C18"),
+ "C19": ("taint (escaping/quoting discipline) + loop coverage + sibling agreement",
+   lv("X-viz (cluster coverage over all scopes, quoting of every Fprintf argument, html escaping of every label argument, dashed iff optional, errVisualizer agreement), s.nodes grows only at provide's commit point (E-ATOM, W-owners).",
+      "failure colouring and pruning (run-time graph algorithm); exact node and edge sets."), "DESIGN.md 4/C19"),
+ "C20": ("must-pass-through / dominance on defer placement + dataflow into the callback literal + call-graph checks",
+   lv("M-cb (defer placement, order relative to recover, captured result, clock placement, name, plumbing), G-recover, T-rootcause, W-reach.",
+      "the duration value; behaviour for unrecovered panics."), "DESIGN.md 4/C20"),
 }
 
 NOT_YET = "check not built yet in this revision of /verif (static rules designed in DESIGN.md section 4; will be claimed when the rule pack lands)"
